@@ -51,7 +51,7 @@ def guarded(p):
             closed = False
             while k < n:
                 if p[k] == "\\":
-                    return False if "]" in p[k:] else True
+                    return False            # backslash inside a bracket, closed or not: glibc is not the reference
                 if p[k] == "[" and k + 1 < n and p[k + 1] in ".=:":
                     if p[k + 1] != ":":
                         return False
@@ -272,6 +272,8 @@ def e2e(ctx):
                     if libc.fnmatch(p.encode(), s.encode(), FNM_CASEFOLD if ci else 0) == 0:
                         exp.add(path.encode())
                 ctx.count(("e2e", flag, p), True, "e2e" + flag)
+                if ci and "[" in p:
+                    continue        # case folding of ranges and classes is left open by the property (see ASSUMPTIONS)
                 if guarded(p) and (got != exp or code != 0):
                     bad.append((flag, p, code, got, exp))
         for flag, p, code, got, exp in bad[:2]:
